@@ -1,4 +1,5 @@
 import Flowjaxv.Proofs.Losses
+import Flowjaxv.Proofs.ElboAd
 /-!
 # C17 — the three losses compute their defining formulas
 
@@ -9,14 +10,20 @@ correspondence in `tools/props/c17.py`).  A batch of size `b` is given by its in
 (`Losses.exists_index_fn`), so all batch sizes / sample counts are covered.  For `b = 0` the
 real value is `0/0 = NaN`; over `ℝ` the formulas read `0/0 = 0` on both sides.
 
-**Not a theorem here:** "with stick-the-landing the gradient omits the score-function term".
-That is a statement about `jax.lax.stop_gradient` under JAX's reverse-mode autodiff, which has no
-counterpart in a value-level model (`stop_gradient p` has the value `p`, which is all
-`elbo_stl_same_value` can and does use).  It is checked on the real code in
-`tools/props/c17.py` (`stl_gradient_check`): the `eqx.filter_grad` of the real STL loss for
-q = Normal(μ, σ) and a quadratic target is compared with the closed-form path-derivative
-estimator computed from the same base samples, and the plain ELBO gradient is checked to differ
-from it by exactly the score term.
+**The gradient clause** ("with stick-the-landing the gradient omits the score-function term") is a statement
+about `jax.lax.stop_gradient` under reverse-mode autodiff and has no counterpart in a value-level model
+(`stop_gradient p` has the value `p`, which is all `elbo_stl_same_value` uses).  It is proved in the second half
+of this file about the reverse-mode calculus of C18 (`Model/Ad.lean`: `Expr.eval`, `Expr.vjp` with JAX's
+cotangent rules, among them `Expr.stopGrad`: forward the identity, reverse a symbolic zero — nothing is
+propagated), for EVERY expression-level sample `x(θ, ε)` (any number of components, later components may use
+earlier ones), EVERY expression `log q_φ(x)` and EVERY parameter-free target (`Model/ElboAd.lean`):
+`stop_gradient_vjp` (the substitution lemma), `elbo_stl_gradient_is_path_derivative`,
+`elbo_plain_gradient_decomposition`, `elbo_stl_gradient_omits_score`, `elbo_loss_gradient` (the `.mean()` over
+the samples) and the numeric instance `elbo_stl_gradient_instance`.  The model is tied to the real code by
+`tools/props/c17.py` (driver op `stlgrad`): value and every adjoint of the real
+`ElboLoss(target, n, stick_the_landing=True/False)` under `eqx.filter_value_and_grad` for real `Normal`,
+`Transformed(Normal, Exp/Tanh/SoftPlus)` and Affine/Tanh/Exp/SoftPlus chains in 1–3 dimensions with the same base
+noise, whose expression trees are assembled from the GENERATED kernels of `Gen/LeavesAst.lean`.
 -/
 open Losses
 
@@ -147,5 +154,147 @@ theorem contrastive_instance :
   have h1 : choices 2 1 = [0] := by decide
   simp [Finset.sum_range_succ, logit, h0, h1]
   norm_num
+
+/-! ## The gradient clause: stick-the-landing omits the score-function term
+
+Reverse-mode calculus `Ad.Expr` (`eval` = forward pass, `vjp env e ct` = the list of adjoint contributions the
+reverse pass produces for the incoming cotangent `ct`; `Grad.total g k` = the adjoint accumulated on key `k`, a
+scalar variable or one element of a vector parameter).  `ElboAd.Elbo` = the data of one ELBO term:
+trainable leaves `P`, sample bindings `xs`, `lq` = `log q_φ(x)`, `tg` = `target(x)`;
+`E.integrand stl` = `let x := x(θ,ε); (if stl then lq[φ := stop_gradient θ] else lq) − tg`;
+`E.wf` = no sample variable is a trainable leaf and the target has no differentiable occurrence of one. -/
+section gradient
+open Ad ElboAd ElboAdT
+variable {N : Type} [Num N]
+
+/-- `stop_gradient(params)` does not change any value: `e[φ := stop_gradient θ]` evaluates like `e`
+(every number domain, IEEE `Float` included). -/
+theorem stop_gradient_value (P : Params) (e : Expr N) (env : Env N) : (sg P e).eval env = e.eval env :=
+  sg_eval e P env
+
+/-- THE SUBSTITUTION LEMMA.  The reverse pass of `e[φ := stop_gradient θ]` is the reverse pass of `e` with
+exactly the adjoints of the trainable leaves deleted — i.e. `e` differentiated with `φ` an independent,
+non-differentiated copy of `θ`; every other adjoint (in the ELBO: the one of the sample `x`) is untouched.
+An equality of adjoint LISTS, for every expression, environment, cotangent and number domain. -/
+theorem stop_gradient_vjp (P : Params) (e : Expr N) (env : Env N) (ct : N) :
+    (sg P e).vjp env ct = (e.vjp env ct).filter (fun kv => !P.has kv.1) :=
+  sg_vjp e P env ct
+
+/-- … so a trainable leaf receives the adjoint zero from `e[φ := stop_gradient θ]`, any other key what it
+receives from `e`. -/
+theorem stop_gradient_total (P : Params) (e : Expr N) (env : Env N) (ct : N) (k : Key) :
+    Grad.total ((sg P e).vjp env ct) k = if P.has k then Num.ofInt 0 else Grad.total (e.vjp env ct) k := by
+  rw [sg_vjp, total_filter (fun k => !P.has k)]
+  cases P.has k <;> rfl
+
+/-- (a) at the level of the differentiated expressions: one ELBO term, and the mean over any number of terms,
+has the same value with or without stick-the-landing. -/
+theorem elbo_stl_same_value_ad (E : Elbo N) (Es : List (Elbo N)) (env : Env N) :
+    (E.integrand true).eval env = (E.integrand false).eval env ∧
+    (loss Es true).eval env = (loss Es false).eval env :=
+  ⟨integrand_eval E env, loss_eval Es env⟩
+
+/-- the reverse pass of the STL term, as a list: the plain reverse pass in which the adjoints that
+`log q_φ(x) − target(x)` sends DIRECTLY to the trainable leaves are deleted before the remaining adjoints go
+back through the definition of the sample (`pullAll` = the `let` rule of `vjp`, innermost binding first). -/
+theorem elbo_stl_reverse_pass (E : Elbo N) (h : E.wf = true) (env : Env N) (ct : N) :
+    (E.integrand true).vjp env ct
+      = pullAll env E.xs (((E.body false).vjp (bindEnv env E.xs) ct).filter (fun kv => !E.P.has kv.1)) :=
+  stl_vjp E h env ct
+
+/-- (b) WITH STICK-THE-LANDING THE GRADIENT IS THE PATH DERIVATIVE.  For every trainable leaf `k` the adjoint
+of the STL term equals the adjoint delivered by `E.pathGrad`: differentiate `log q_φ(x) − target(x)` with
+respect to the sample components only (they are free variables there, so `φ` is held fixed; everything that
+does not land on a sample component is discarded) and pull those adjoints `x̄` back through `x(θ, ε)`.  No
+contribution of the direct dependence of `log q` on its parameters.  Every number domain; second part: for a
+single sample component the familiar `x̄ · ∂x/∂θ_k` with `x̄ = ∂[log q_φ(x) − target(x)]/∂x`. -/
+theorem elbo_stl_gradient_is_path_derivative (E : Elbo N) (h : E.wf = true) (env : Env N) (ct : N) (k : Key)
+    (hk : E.P.has k = true) :
+    Grad.total ((E.integrand true).vjp env ct) k = Grad.total (E.pathGrad env ct) k ∧
+    ∀ (i : Nat) (x : Expr N), E.xs = [(i, x)] →
+      Grad.total ((E.integrand true).vjp env ct) k
+        = Grad.total (x.vjp env (Grad.total ((Expr.sub E.lq E.tg).vjp (env.set i (x.eval env)) ct) (Key.s i))) k := by
+  refine ⟨stl_total_eq_path E h env ct k hk, fun i x hx => ?_⟩
+  have hi : E.P.s i = false := by
+    have := wf_sample_not_param h (k := Key.s i) (by rw [hx]; simp [isSample])
+    simpa [Params.has] using this
+  rw [stl_total_eq_path E h env ct k hk]
+  obtain ⟨P, xs, lq, tg⟩ := E
+  simp only at hx hi hk ⊢
+  subst hx
+  exact path_single P i x lq tg env ct k hi hk
+
+/-- the path derivative depends on the body only through the adjoints of the sample components: two
+adjoint lists with the same totals on the sample components and on the trainable leaves are pulled back to
+the same adjoint of every trainable leaf. -/
+theorem path_derivative_depends_on_sample_adjoints (E : Elbo N) (env : Env N) (g₁ g₂ : Grad N)
+    (hg : ∀ k, E.P.has k = true ∨ isSample E.xs k = true → Grad.total g₁ k = Grad.total g₂ k)
+    (k : Key) (hk : E.P.has k = true) :
+    Grad.total (pullAll env E.xs g₁) k = Grad.total (pullAll env E.xs g₂) k :=
+  pullAll_congr (fun k => E.P.has k = true) E.xs env g₁ g₂ hg k hk
+
+/-- (c) WITHOUT STICK-THE-LANDING THE GRADIENT IS PATH DERIVATIVE + SCORE TERM.  On every key the adjoint of
+the plain term is the adjoint of the STL term plus the score term `E.scoreGrad` = the adjoint of `log q_φ(x)`
+with respect to its own parameters at `φ = θ`, the sample held fixed; hence on every trainable leaf
+plain = path derivative + score.  Needs only that adjoints add up in a commutative monoid (`AddLawful`: `EF`
+with its infinities and NaN, in particular its finite part `ℝ`). -/
+theorem elbo_plain_gradient_decomposition [AddLawful N] (E : Elbo N) (h : E.wf = true) (env : Env N) (ct : N)
+    (k : Key) :
+    Grad.total ((E.integrand false).vjp env ct) k
+        = Grad.total ((E.integrand true).vjp env ct) k + Grad.total (E.scoreGrad env ct) k ∧
+    (E.P.has k = true →
+      Grad.total ((E.integrand false).vjp env ct) k
+        = Grad.total (E.pathGrad env ct) k + Grad.total (E.scoreGrad env ct) k) := by
+  refine ⟨plain_total_eq_stl_add_score E h env ct k, fun hk => ?_⟩
+  rw [plain_total_eq_stl_add_score E h env ct k, stl_total_eq_path E h env ct k hk]
+
+/-- "omits the score-function term", exactly: STL adjoint = plain adjoint − score term, over `EF` wherever
+the score term is finite (`EF.fin` = the reals with exact arithmetic). -/
+theorem elbo_stl_gradient_omits_score (E : Elbo EF) (h : E.wf = true) (env : Env EF) (ct : EF) (k : Key)
+    (s : ℝ) (hs : Grad.total (E.scoreGrad env ct) k = EF.fin s) :
+    Grad.total ((E.integrand true).vjp env ct) k
+      = Grad.total ((E.integrand false).vjp env ct) k - Grad.total (E.scoreGrad env ct) k := by
+  rw [plain_total_eq_stl_add_score E h env ct k, hs, ef_add_sub_cancel]
+
+/-- the whole loss `(log_probs − target).mean()` over any number `n` of samples (each term with its own
+noise variables): the reverse pass of `.mean()` hands every term the cotangent `ct / n`; the STL gradient is
+the sum of the per-sample path derivatives, the plain gradient exceeds it by the sum of the per-sample score
+terms. -/
+theorem elbo_loss_gradient [AddLawful N] (Es : List (Elbo N)) (h : ∀ E ∈ Es, E.wf = true) (env : Env N) (ct : N)
+    (k : Key) :
+    (∀ stl, (loss Es stl).vjp env ct
+        = (Es.map fun E => E.integrand stl).flatMap (fun e => e.vjp env (ct / Num.ofInt Es.length))) ∧
+    ((∀ E ∈ Es, E.P.has k = true) →
+      Grad.total ((loss Es true).vjp env ct) k
+        = sumN (Es.map fun E => Grad.total (E.pathGrad env (ct / Num.ofInt Es.length)) k)) ∧
+    Grad.total ((loss Es false).vjp env ct) k
+      = Grad.total ((loss Es true).vjp env ct) k
+        + sumN (Es.map fun E => Grad.total (E.scoreGrad env (ct / Num.ofInt Es.length)) k) := by
+  refine ⟨fun stl => ?_, fun hk => loss_stl_total Es h env ct k hk, loss_plain_total Es h env ct k⟩
+  rw [loss, meanE_vjp, List.length_map]
+
+/-- non-vacuity, with numbers: q = N(μ, σ) assembled from the GENERATED `Affine` kernels, `x = μ + σ ε`,
+`target(x) = −x²/2`, at `μ = 1, σ = 2, ε = 2` (so `x = 5`).  The term is well-formed; the score term is
+`(1, 3/2) ≠ 0`; the STL gradient w.r.t. `(μ, σ)` is the path derivative `(4, 8)`, the plain gradient is
+`(5, 19/2)` — they differ by exactly the score term. -/
+theorem elbo_stl_gradient_instance :
+    gaussE.wf = true ∧
+    (Grad.total ((gaussE.integrand true).vjp gaussEnv (EF.fin 1)) (Key.s 1) = EF.fin 4 ∧
+     Grad.total ((gaussE.integrand true).vjp gaussEnv (EF.fin 1)) (Key.s 2) = EF.fin 8) ∧
+    (Grad.total (gaussE.pathGrad gaussEnv (EF.fin 1)) (Key.s 1) = EF.fin 4 ∧
+     Grad.total (gaussE.pathGrad gaussEnv (EF.fin 1)) (Key.s 2) = EF.fin 8) ∧
+    (Grad.total (gaussE.scoreGrad gaussEnv (EF.fin 1)) (Key.s 1) = EF.fin 1 ∧
+     Grad.total (gaussE.scoreGrad gaussEnv (EF.fin 1)) (Key.s 2) = EF.fin (3 / 2)) ∧
+    (Grad.total ((gaussE.integrand false).vjp gaussEnv (EF.fin 1)) (Key.s 1) = EF.fin 5 ∧
+     Grad.total ((gaussE.integrand false).vjp gaussEnv (EF.fin 1)) (Key.s 2) = EF.fin (19 / 2)) ∧
+    Grad.total ((gaussE.integrand true).vjp gaussEnv (EF.fin 1)) (Key.s 1)
+      ≠ Grad.total ((gaussE.integrand false).vjp gaussEnv (EF.fin 1)) (Key.s 1) := by
+  refine ⟨gauss_wf, gauss_stl, gauss_path, gauss_score, gauss_plain, ?_⟩
+  rw [gauss_stl.1, gauss_plain.1]
+  intro h
+  injection h with h
+  norm_num at h
+
+end gradient
 
 end C17
